@@ -115,9 +115,18 @@ theorem gen_estimateNone (mloss : List (Loss.Meas α) → CliqueVec α → α ×
 
 end generic
 
-/-! ## the C19 theorems for the generated descent (real numbers, `eps0 = 0`) -/
+/-! ## the C19 theorems for the generated descent (real numbers, `eps0 = 0`)
 
-/-- `emd_weights_valid` for the generated `entropic_mirror_descent` -/
+`eps0`: the source computes `logP = np.log(x0 + np.nextafter(0, 1)) + …`; the translator makes `np.nextafter(0, 1)` the
+parameter `eps0` of the generated definition, and `gen_emd` / `gen_emdStep` hold for EVERY `eps0`.  The theorems below
+(`gen_emd_weights_valid`, `gen_emd_zero_iters`, `gen_emd_never_worse_than_start`, and `gen_estimate*_c19`) instantiate it
+with `0`: the smallest positive double (`5e-324`) has no counterpart over `ℝ`, `x + 5e-324 == x` in floating point for
+every normal `x > 0`, and the guard only matters for zero weights, which the hypothesis `∀ x ∈ x0, 0 < x` (unit weights
+from `__init__`) excludes.  For a positive real `eps0` the statements would change (e.g. `gen_emd_zero_iters`: the
+start is `(x + eps0)·total/Σx`, whose sum is not `total`). -/
+
+/-- `emd_weights_valid` for the generated `entropic_mirror_descent` (with `eps0 := 0` for the source's
+`np.nextafter(0, 1)`, see above) -/
 theorem gen_emd_weights_valid (lossgrad : List ℝ → ℝ × List ℝ) (x0 : List ℝ) (total : ℝ) (iters : Nat)
     (hg : GradLen lossgrad) (hx : ∀ x ∈ x0, 0 < x) (hne : x0 ≠ []) (ht : 0 < total) :
     (PubG.entropicMirrorDescent lossgrad x0 total 0 iters).length = x0.length ∧
@@ -125,13 +134,13 @@ theorem gen_emd_weights_valid (lossgrad : List ℝ → ℝ × List ℝ) (x0 : Li
     (PubG.entropicMirrorDescent lossgrad x0 total 0 iters).sum = total := by
   rw [gen_emd]; exact C19.emd_weights_valid lossgrad x0 total iters hg hx hne ht
 
-/-- `emd_zero_iters` for the generated `entropic_mirror_descent` -/
+/-- `emd_zero_iters` for the generated `entropic_mirror_descent` (`eps0 := 0` for `np.nextafter(0, 1)`) -/
 theorem gen_emd_zero_iters (lossgrad : List ℝ → ℝ × List ℝ) (x0 : List ℝ) (total : ℝ)
     (hx : ∀ x ∈ x0, 0 < x) (hne : x0 ≠ []) (ht : 0 < total) :
     PubG.entropicMirrorDescent lossgrad x0 total 0 0 = x0.map (fun x => x * total / x0.sum) := by
   rw [gen_emd]; exact C19.emd_zero_iters lossgrad x0 total hx hne ht
 
-/-- `emd_never_worse_than_start` for the generated `entropic_mirror_descent` -/
+/-- `emd_never_worse_than_start` for the generated `entropic_mirror_descent` (`eps0 := 0` for `np.nextafter(0, 1)`) -/
 theorem gen_emd_never_worse_than_start (lossgrad : List ℝ → ℝ × List ℝ) (x0 : List ℝ) (total : ℝ)
     (iters : Nat) (hg : GradLen lossgrad) (hx : ∀ x ∈ x0, 0 < x) (hne : x0 ≠ []) (ht : 0 < total) :
     (lossgrad (PubG.entropicMirrorDescent lossgrad x0 total 0 iters)).1
@@ -170,7 +179,12 @@ every total > 0, a fresh `PublicInference(pub).estimate(ms, total)` returns a da
   summing to `total`;
 * over the public domain and — when the attribute names are distinct and every record has one value per attribute —
   over the unchanged public records;
-* whose objective value is at most that of the uniform weights `total / n` on the same records. -/
+* whose objective value is at most that of the uniform weights `total / n` on the same records.
+
+The objective is abstract here (any `mloss`).  For `PubG.marginalLossL2 / L1` it divides by the noise scale of each
+measurement; with `noise = 0` the model's `x/0 = 0` makes it constant `0` (Python: `1.0/noise` fails), so the instances
+with the objective written out (`C19E.gen_reweighting_never_worse_than_uniform*`) assume `0 < noise`.  The last argument
+`0` is `eps0` (source: `np.nextafter(0, 1)`, see the section on the descent above). -/
 theorem gen_estimateGiven_c19 (mloss : List (Loss.Meas ℝ) → CliqueVec ℝ → ℝ × CliqueVec ℝ) (pub : Dataset ℝ)
     (ms : List (Loss.Meas ℝ)) (total : ℝ) (hn : 0 < pub.records) (ht : 0 < total) :
     let r := PubG.estimateGiven mloss pub (PubG.initWeights pub) ms total 0
@@ -219,20 +233,19 @@ theorem gen_estimateNone_c19 (mloss : List (Loss.Meas ℝ) → CliqueVec ℝ →
 /-- a measurement as the tuple `(Q, y, noise, proj)` of tools/py2total.py -/
 def measTuple (m : Loss.Meas ℝ) : List (List ℝ) × List ℝ × ℝ × List Attr := (m.Q, m.y, m.noise, m.proj)
 
-/-- with `estimate_total` as regenerated by tools/py2total.py (`TotalG.estimateTotal_public`, under the contracts of
-C09G: `lsmr` returns the minimum-norm solution, `allclose` read exactly) the estimated total is at least 1, so the
-hypothesis of `gen_estimateNone_c19` holds: the weights sum to the estimated total -/
+/-- with `estimate_total` as regenerated by tools/py2total.py (`TotalG.estimateTotal_public`, under the contract
+`Total.LsmrOK` of C09G: `lsmr` returns the minimum-norm solution of `Qᵀ v = 1` where that system is consistent, and
+whatever it returns fails the `allclose` test where it is not) the estimated total is at least 1, so the hypothesis of
+`gen_estimateNone_c19` holds: the weights sum to the estimated total -/
 theorem gen_estimateNone_total (mloss : List (Loss.Meas ℝ) → CliqueVec ℝ → ℝ × CliqueVec ℝ)
     (lsmrSolve : List (List ℝ) → List ℝ) (allclose : List ℝ → List ℝ → Bool) (pub : Dataset ℝ)
     (ms : List (Loss.Meas ℝ)) (hn : 0 < pub.records)
-    (hl : ∀ t ∈ ms.map measTuple, lsmrSolve t.1
-      = Total.matVec t.1 (Total.solve (Total.gram t.1) (List.replicate (Total.ncols t.1) 1)))
-    (ha : ∀ a b, allclose a b = decide (a = b)) :
+    (hl : Total.LsmrOK lsmrSolve allclose (ms.map measTuple)) :
     let et := fun ms => PGM.TotalG.estimateTotal_public lsmrSolve allclose (ms.map measTuple)
     let r := PubG.estimateNone mloss et pub (PubG.initWeights pub) ms 0
     1 ≤ et ms ∧ r.2.sum = et ms ∧ r.2.length = pub.records ∧ (∀ w ∈ r.2, 0 < w) := by
   intro et r
-  have h1 : 1 ≤ et ms := (C09.TotalG.gen_total_ge_one lsmrSolve allclose (ms.map measTuple) hl ha).2.2
+  have h1 : 1 ≤ et ms := (C09.TotalG.gen_total_ge_one lsmrSolve allclose (ms.map measTuple) hl).2.2
   have h := gen_estimateNone_c19 mloss et pub ms hn (by linarith)
   exact ⟨h1, h.2.2.2.2.2.1, h.2.2.2.1, h.2.2.2.2.1⟩
 
@@ -261,11 +274,10 @@ example :
   simp only [exPub, List.mem_cons, List.not_mem_nil, or_false] at hr
   rcases hr with rfl | rfl | rfl <;> rfl
 
-/-- the contracts of `gen_estimateNone_total` hold for the model's own solver and the exact test (as in C09G) -/
+/-- the contract of `gen_estimateNone_total` holds for the model's own solver and the exact test (as in C09G, where
+`lsmrOK_exLS` also has a scipy-like `lsmr` and a tolerance test on a list with non-qualifying matrices) -/
 example : 0 < exPub.records ∧
-    (∀ t ∈ exMs.map measTuple, (Total.minNormSol : List (List ℝ) → List ℝ) t.1
-      = Total.matVec t.1 (Total.solve (Total.gram t.1) (List.replicate (Total.ncols t.1) 1))) ∧
-    (∀ a b : List ℝ, (fun a b => decide (a = b)) a b = decide (a = b)) :=
-  ⟨by decide, fun _ _ => rfl, fun _ _ => rfl⟩
+    Total.LsmrOK Total.minNormSol (fun a b : List ℝ => decide (a = b)) (exMs.map measTuple) :=
+  ⟨by decide, Total.LsmrOK.of_exact _ _ _ (fun _ _ => rfl) (fun _ _ => rfl)⟩
 
 end PGM.C19G
